@@ -413,6 +413,7 @@ func runC16(r *Run) error {
 		"race detector soak of the same generator in a -race twin; non-trivial = history had >= 2 species (so >= 2 concurrent goroutines) at some epoch, or a single-species comparison of >= 1 epoch; distinct by seed"
 	c16CheckTable(r)
 	counterHammer(r, "C16")
+	c03InterleavedAllocation(r)
 	// parallel histories
 	n := r.N(60, 1500)
 	for i := 0; i < n; i++ {
